@@ -79,6 +79,7 @@ type c11World struct {
 	nonnil   map[*types.Func]bool         // every return yields a fresh object as first result
 	derefs   map[*types.Func]map[int]bool // pointer parameters the function reads a field through
 	tolerant map[*types.Func]map[int]bool // pointer / map parameters the function itself compares with nil
+	nilField map[*types.Var]bool             // struct fields that some function compares with nil or sets to nil
 	writes   map[*types.Func]map[string]bool // field names the function (or anything it calls) may assign; "*" = anything
 }
 
@@ -285,6 +286,41 @@ func (w *c11World) index() {
 			w.nonnil[o] = true
 		}
 	}
+	// fields of pointer / map type that the code itself treats as possibly nil somewhere
+	w.nilField = map[*types.Var]bool{}
+	for _, f := range w.decls {
+		isNil := func(e ast.Expr) bool { id, ok := e.(*ast.Ident); return ok && id.Name == "nil" }
+		markF := func(e ast.Expr) {
+			if se, ok := e.(*ast.SelectorExpr); ok {
+				if sel, ok := f.info.Selections[se]; ok && sel.Kind() == types.FieldVal {
+					if v, ok := sel.Obj().(*types.Var); ok && nilable(v.Type()) && isMapT(v.Type()) {
+						w.nilField[v] = true
+					}
+				}
+			}
+		}
+		ast.Inspect(f.decl.Body, func(x ast.Node) bool {
+			switch v := x.(type) {
+			case *ast.BinaryExpr:
+				if v.Op == token.EQL || v.Op == token.NEQ {
+					if isNil(v.Y) {
+						markF(v.X)
+					} else if isNil(v.X) {
+						markF(v.Y)
+					}
+				}
+			case *ast.AssignStmt:
+				if len(v.Lhs) == len(v.Rhs) {
+					for i, r := range v.Rhs {
+						if isNil(r) {
+							markF(v.Lhs[i])
+						}
+					}
+				}
+			}
+			return true
+		})
+	}
 	// parameter summaries: which pointer parameters are dereferenced, which are tested against nil
 	w.derefs = map[*types.Func]map[int]bool{}
 	w.tolerant = map[*types.Func]map[int]bool{}
@@ -398,6 +434,14 @@ func nilable(t types.Type) bool {
 		return true
 	}
 	return false
+}
+
+func isMapT(t types.Type) bool {
+	if t == nil {
+		return false
+	}
+	_, ok := t.Underlying().(*types.Map)
+	return ok
 }
 
 func isStringT(t types.Type) bool {
@@ -932,6 +976,12 @@ func (a *c11An) prepare(fd *ast.FuncDecl, fo *types.Func) {
 	}
 	ast.Inspect(fd.Body, func(x ast.Node) bool {
 		switch v := x.(type) {
+		case *ast.SelectorExpr:
+			if sel, ok := a.info.Selections[v]; ok && sel.Kind() == types.FieldVal && a.w != nil {
+				if fv, ok := sel.Obj().(*types.Var); ok && a.w.nilField[fv] {
+					mark(v)
+				}
+			}
 		case *ast.BinaryExpr:
 			if v.Op == token.EQL || v.Op == token.NEQ {
 				if isNil(v.Y) {
